@@ -30,6 +30,11 @@ pub enum Op {
     DropTokenInPanic(u16),
     /// hand a token to Token::run on a connection that is closed immediately
     RunToCompletion(u16),
+    /// hand a token to Token::run on a connection whose client stays silent: the connection is
+    /// being served (and occupies its slot) until FinishRun
+    StartRun(u16),
+    /// end a served connection: the client closes it (false) or the run future is dropped (true)
+    FinishRun(u16, bool),
     CloneRunner(u16),
 }
 
@@ -45,8 +50,8 @@ struct Pending {
     polled: bool,
 }
 
-fn live_check(tokens: &[Token], limit: usize, what: &str) -> Result<(), Fail> {
-    vensure!(tokens.len() <= limit, "c13-limit-exceeded", "{what}: {} tokens alive with max_conns = {limit}", tokens.len());
+fn live_check(live: usize, limit: usize, what: &str) -> Result<(), Fail> {
+    vensure!(live <= limit, "c13-limit-exceeded", "{what}: {live} tokens alive (held or serving a connection) with max_conns = {limit}");
     Ok(())
 }
 
@@ -56,17 +61,19 @@ fn test(c: &Case) -> TestResult {
     let mut runners: Vec<Arc<Runner>> = vec![Arc::new(cfg.async_runner())];
     let mut pending: Vec<Pending> = Vec::new();
     let mut tokens: Vec<Token> = Vec::new();
+    // connections being served: (task, its transport)
+    let mut serving: Vec<(Task<'static>, Shared)> = Vec::new();
     let mut waited = false;
     let mut cancelled_queued = false;
     let mut used_clone = false;
     let mut handed_over = 0usize;
 
     // invariant after every operation
-    let check = |pending: &Vec<Pending>, tokens: &Vec<Token>, what: &str| -> Result<(), Fail> {
-        live_check(tokens, limit, what)?;
+    let check = |pending: &Vec<Pending>, live: usize, what: &str| -> Result<(), Fail> {
+        live_check(live, limit, what)?;
         let queued: Vec<&Pending> = pending.iter().filter(|p| p.polled).collect();
-        if tokens.len() < limit && !queued.is_empty() {
-            vensure!(queued.iter().any(|p| p.flag.is_woken()), "c13-stranded-slot", "{what}: {} of {limit} slots in use, {} request(s) queued, but none of them has been woken", tokens.len(), queued.len());
+        if live < limit && !queued.is_empty() {
+            vensure!(queued.iter().any(|p| p.flag.is_woken()), "c13-stranded-slot", "{what}: {live} of {limit} slots in use, {} request(s) queued, but none of them has been woken", queued.len());
         }
         Ok(())
     };
@@ -85,7 +92,7 @@ fn test(c: &Case) -> TestResult {
                     let k = idx(*f, pending.len());
                     let first_poll = !pending[k].polled;
                     let others_queued = pending.iter().enumerate().any(|(i, p)| i != k && p.polled);
-                    let free_before = tokens.len() < limit;
+                    let free_before = tokens.len() + serving.len() < limit;
                     let p = &mut pending[k];
                     p.flag.take();
                     let waker = Waker::from(p.flag.clone());
@@ -101,7 +108,7 @@ fn test(c: &Case) -> TestResult {
                         Poll::Pending => {
                             waited = true;
                             if first_poll && free_before && !others_queued {
-                                vfail!("c13-not-immediate", "{what}: a slot is free ({} of {limit} in use) and nobody is queued, but the request did not complete immediately", tokens.len());
+                                vfail!("c13-not-immediate", "{what}: a slot is free ({} of {limit} in use) and nobody is queued, but the request did not complete immediately", tokens.len() + serving.len());
                             }
                         },
                     }
@@ -144,6 +151,36 @@ fn test(c: &Case) -> TestResult {
                     vensure!(end == RunEnd::Finished, "c12-hang", "{what}: Token::run on a closed connection did not finish ({end:?})");
                 }
             },
+            Op::StartRun(t) => {
+                if !tokens.is_empty() {
+                    let k = idx(*t, tokens.len());
+                    let tok = tokens.remove(k);
+                    let world: Shared = Arc::new(Mutex::new(World::new(Vec::new(), vec![], vec![], vec![], false, IoFault::None)));
+                    world.lock().unwrap().close_at_end = false;
+                    let sh = Arc::new(HShared { scripts: vec![], propagate: true, log: Mutex::new(Vec::new()), step: Arc::new(AtomicUsize::new(0)), world: world.clone() });
+                    let mut task = Task::new(tok.run(MockReader(world.clone()), MockWriter(world.clone()), make_handler(sh)));
+                    let (end, _) = run_single(&mut task, 1000, |_| {});
+                    vensure!(end == RunEnd::Idle, "harness-inconsistent", "{what}: a connection with a silent client should be waiting, is {end:?}");
+                    serving.push((task, world));
+                }
+            },
+            Op::FinishRun(i, cancel) => {
+                if !serving.is_empty() {
+                    let k = idx(*i, serving.len());
+                    let (mut task, world) = serving.remove(k);
+                    if *cancel {
+                        drop(task);
+                    } else {
+                        {
+                            let mut w = world.lock().unwrap();
+                            w.close_at_end = true;
+                            w.peer_update();
+                        }
+                        let (end, _) = run_single(&mut task, 1000, |_| {});
+                        vensure!(end == RunEnd::Finished, "c12-hang", "{what}: Token::run did not finish after the client closed ({end:?})");
+                    }
+                }
+            },
             Op::CloneRunner(r) => {
                 if runners.len() < 3 {
                     let src = &runners[idx(*r, runners.len())];
@@ -152,7 +189,7 @@ fn test(c: &Case) -> TestResult {
                 }
             },
         }
-        check(&pending, &tokens, &what)?;
+        check(&pending, tokens.len() + serving.len(), &what)?;
     }
     // drain: every request must eventually get a token as slots are freed
     let mut rounds = 0;
@@ -174,26 +211,30 @@ fn test(c: &Case) -> TestResult {
                     pending.remove(k);
                     handed_over += 1;
                     progressed = true;
-                    live_check(&tokens, limit, "drain")?;
+                    live_check(tokens.len() + serving.len(), limit, "drain")?;
                     continue;
                 }
             }
             k += 1;
         }
-        check(&pending, &tokens, "drain")?;
+        check(&pending, tokens.len() + serving.len(), "drain")?;
         if !progressed {
-            if tokens.is_empty() {
+            if !tokens.is_empty() {
+                drop(tokens.remove(0));
+            } else if !serving.is_empty() {
+                drop(serving.remove(0));
+            } else {
                 vfail!("c13-stranded-slot", "drain: all slots are free, {} request(s) are queued, none is runnable", pending.len());
             }
-            drop(tokens.remove(0));
-            check(&pending, &tokens, "drain after drop")?;
+            check(&pending, tokens.len() + serving.len(), "drain after drop")?;
         }
     }
     Ok(Outcome::new(waited && handed_over > limit)
         .label_if(cancelled_queued, "queued-request-cancelled")
         .label_if(used_clone, "cloned-runner")
         .label_if(c.ops.iter().any(|o| matches!(o, Op::DropTokenInPanic(_))), "drop-during-unwind")
-        .label_if(c.ops.iter().any(|o| matches!(o, Op::RunToCompletion(_))), "run-to-completion"))
+        .label_if(c.ops.iter().any(|o| matches!(o, Op::RunToCompletion(_))), "run-to-completion")
+        .label_if(c.ops.iter().any(|o| matches!(o, Op::StartRun(_))), "connection-being-served"))
 }
 
 // ---------------------------------------------------------------------------------------------
@@ -295,6 +336,8 @@ fn op() -> BoxedStrategy<Op> {
         4 => any::<u16>().prop_map(Op::DropToken),
         1 => any::<u16>().prop_map(Op::DropTokenInPanic),
         1 => any::<u16>().prop_map(Op::RunToCompletion),
+        2 => any::<u16>().prop_map(Op::StartRun),
+        2 => (any::<u16>(), any::<bool>()).prop_map(|(i, c)| Op::FinishRun(i, c)),
         1 => any::<u16>().prop_map(Op::CloneRunner),
     ]
     .boxed()
@@ -331,7 +374,7 @@ pub fn property() -> Property {
         subs: vec![
             prop_sub(
                 "histories",
-                "limits 1..4, 1..3 runners (clones share the limit), histories of get_token / poll / drop-pending-request / drop-token / drop-token-while-unwinding / run-to-completion / clone operations; after every operation: live tokens <= limit, a first poll with a free slot and nobody queued completes immediately, free slot and queued requests implies one of them has been woken; final drain: every request obtains a token as slots are freed; non-trivial = some request had to wait and more tokens than the limit were handed out over time; distinct = hash of the case",
+                "limits 1..4, 1..3 runners (clones share the limit), histories of get_token / poll / drop-pending-request / drop-token / drop-token-while-unwinding / run-to-completion / start-serving / finish-serving (client closes or future dropped) / clone operations; a token counts as live while it is held or while its connection is being served; after every operation: live tokens <= limit, a first poll with a free slot and nobody queued completes immediately, free slot and queued requests implies one of them has been woken; final drain: every request obtains a token as slots are freed; non-trivial = some request had to wait and more tokens than the limit were handed out over time; distinct = hash of the case",
                 60_000,
                 2_000_000,
                 |_| boxed((1u8..=4, proptest::collection::vec(op(), 1..40)).prop_map(|(limit, ops)| Case { limit, ops })),
